@@ -222,6 +222,31 @@ CHECKS["C04"] = dict(
     note="Partial: the Go executors' panic-freedom rests on the enumeration, not on a theorem about Go code; process liveness over TCP is runtime. Trusted: Lean kernel, harness recover()/watchdog, hook H2.",
 )
 
+CHECKS["C16"] = dict(
+    category="proof", design_ref="DESIGN.md §6 C16", engine="wal",
+    technique="Lean 4 theorems on the WAL/snapshot byte format, CRC-32C single-byte detection and the sector-atomic torn-tail argument "
+              "(conditional on NoCollision) + byte-for-byte image correspondence and fault enumeration (torn sector subsets, single-byte "
+              "corruption) on the real wal/snap packages, each case checked against the Lean model's verdict and the property's oracle",
+    text="Proved (kernel-checked, lean/registry.json C16): CRC-32C as hash/crc32.Update detects every single-byte change (crc_single_byte); "
+         "varint / walpb.Record / frame-length / frame round trips on the concrete bytes; a record sequence written through the rolling CRC, "
+         "also across a segment cut with its crc-seed record, reads back exactly and stops at the preallocated zeros; one changed payload "
+         "byte of a record or of a snapshot file is reported as a CRC error after the untouched prefix; changed padding bytes change "
+         "nothing; a damaged newest snapshot falls back to the next intact matching one on the loadMatching model; and the torn-tail "
+         "theorem (every synced record, then a whole-record prefix of the unsynced ones, ending EOF or torn at the offset Repair "
+         "truncates to) for the real frame layout under the explicit hypothesis NoCollision — the unconditional multi-sector statement "
+         "C16_statement is false for a 32-bit CRC and is not claimed. NOT proved but enumerated on the real code (fault enumeration, not "
+         "proof): multi-sector tears (all subsets of <= 6 unsynced tail sectors per crash point, seeded random subsets beyond) and "
+         "single-byte corruption of framing bytes (frame length field, protobuf tags, type, crc field, length varints), payload, padding "
+         "and the zero tail with {0x00, low bit flipped, 0xff}: wal.OpenForRead/Open+ReadAll, Verify, Repair+reopen and "
+         "snap.Load/LoadNewestAvailable results are compared with the Lean file-level model on the same mutilated image and with the "
+         "property's oracle. Segment images of generated Save/SaveSnapshot/cut sequences are compared byte for byte with the model writer.",
+    note="Trusted: Lean kernel (propext, Classical.choice, Quot.sound), harness/driver (the driver resumes the model's own read loop from "
+         "its recorded state before the changed byte; every 47th case is re-evaluated from scratch), sector-atomic storage with "
+         "preallocated zero-filled segments, os/fsync/rename, gogo unmarshalers mirrored for walpb.Record, raftpb.Entry/HardState, "
+         "walpb.Snapshot, snappb.Snapshot (raftpb.ConfState opaque). Known finding wal/corrupt/type-byte: the CRC does not cover the "
+         "record type. A commit-only HardState is not fsynced by design (raft.MustSync); the oracle uses the code's own sync points.",
+)
+
 NOT_YET = "check not built yet in this round; see DESIGN.md §8"
 NOT_APPLICABLE = {}
 
